@@ -34,9 +34,12 @@ impl Msg {
             // content 1: node A owns everything; content 2: node B owns everything
             vec!["UMCTL".into(), "SETCLUSTER".into(), "v2".into(), self.epoch.to_string(), flags.into(), "c5".into(), node.into(), "1".into(), "0-16383".into()]
         } else {
-            // content 1: node is a master with one replica; content 2: node is a replica of one master
-            let role = if self.content == 1 { "master" } else { "replica" };
-            vec!["UMCTL".into(), "SETREPL".into(), self.epoch.to_string(), flags.into(), role.into(), "c5".into(), node.into(), "1".into(), "127.0.0.2:6000".into(), "127.0.0.2:7000".into()]
+            // content 1 / 3: node A is a master with one replica; content 2 / 4: node A is a replica of one master; the peer differs
+            // between 1|2 and 3|4 (same replicator key, different metadata: a reused replicator would show the old peer)
+            let role = if self.content % 2 == 1 { "master" } else { "replica" };
+            let peer = if self.content <= 2 { "127.0.0.2:6000" } else { "127.0.0.3:6000" };
+            let node = if !self.host_ok { FOREIGN } else { NODE_A };
+            vec!["UMCTL".into(), "SETREPL".into(), self.epoch.to_string(), flags.into(), role.into(), "c5".into(), node.into(), "1".into(), peer.into(), "127.0.0.2:7000".into()]
         };
         v.into_iter().map(String::into_bytes).collect()
     }
@@ -84,22 +87,30 @@ async fn route_content(net: &Net) -> i64 {
     c
 }
 
-/// replication content: 1 (a master record), 2 (a replica record), 0 none
+/// replication content: 1 / 3 (a master record, peer on host 2 / 3), 2 / 4 (a replica record, peer on host 2 / 3), 0 none
 async fn repl_content(net: &Net) -> i64 {
     let r = net.proxy_exec(PROXY, vec![b"UMCTL".to_vec(), b"INFOREPL".to_vec()]).await;
     if let Resp::Arr(Array::Arr(items)) = r {
         for it in items {
             if let Resp::Arr(Array::Arr(lines)) = it {
+                let mut role = 0;
+                let mut far_peer = false;
                 for l in lines {
                     if let Resp::Bulk(BulkStr::Str(b)) = l {
                         let s = String::from_utf8_lossy(&b).to_string();
                         if s.starts_with("role:master") {
-                            return 1;
+                            role = 1;
                         }
                         if s.starts_with("role:replica") {
-                            return 2;
+                            role = 2;
+                        }
+                        if (s.starts_with("replica:") || s.starts_with("master:")) && s.contains("127.0.0.3:6000") {
+                            far_peer = true;
                         }
                     }
+                }
+                if role != 0 {
+                    return role + if far_peer { 2 } else { 0 };
                 }
             }
         }
@@ -108,11 +119,12 @@ async fn repl_content(net: &Net) -> i64 {
 }
 
 fn gen_msg(rng: &mut StdRng, max_epoch: u64) -> Msg {
+    let kind = if rng.gen_bool(0.6) { 'C' } else { 'R' };
     Msg {
-        kind: if rng.gen_bool(0.6) { 'C' } else { 'R' },
+        kind,
         epoch: rng.gen_range(1..=max_epoch),
         force: rng.gen_bool(0.15),
-        content: rng.gen_range(1..=2),
+        content: if kind == 'C' { rng.gen_range(1..=2) } else { rng.gen_range(1..=4) },
         host_ok: rng.gen_bool(0.9),
     }
 }
@@ -159,7 +171,7 @@ pub fn run_concurrent(out: &mut dyn Write, seed: u64, count: usize) {
             handle.block_on(net.proxy_exec(PROXY, m.cmd()));
         }
         let n = rng.gen_range(2..=3);
-        let msgs: Vec<Msg> = (0..n).map(|_| Msg { kind, epoch: rng.gen_range(1..=4), force: false, content: rng.gen_range(1..=2), host_ok: true }).collect();
+        let msgs: Vec<Msg> = (0..n).map(|_| Msg { kind, epoch: rng.gen_range(1..=4), force: false, content: if kind == 'C' { rng.gen_range(1..=2) } else { rng.gen_range(1..=4) }, host_ok: true }).collect();
         let sched = Sched::with_stall(40);
         let results = std::sync::Arc::new(parking_lot::Mutex::new(vec![String::new(); n]));
         let reads = std::sync::Arc::new(parking_lot::Mutex::new(vec![]));
